@@ -188,3 +188,7 @@ m("C08", "metacommands.py", "    if compiler.include_depth >= MAX_INCLUDE_DEPTH:
 m("C08", "metacommands.py", "    if compiler.include_depth >= MAX_INCLUDE_DEPTH:", "    if not compiler.include_depth < MAX_INCLUDE_DEPTH:", None)
 m("C10", "insns.py", "    elif isinstance(operand, operators.register):", "    elif isinstance(operand, operators.register) and state is None:", "C01.T")
 m("C05", "deferred.py", "                new_coeffs += [(key1, value1 * value) for key1, value1 in key.coeffs.items()]", "                new_coeffs = dict(new_coeffs); new_coeffs.update({key1: value1 * value for key1, value1 in key.coeffs.items()}); new_coeffs = list(new_coeffs.items())", "C03.R7")
+# G13n, G3 type guard, G11 addresses
+m("C08", "parser.py", 'Parser.regex(r"[a-z_0-9$.]+"', 'Parser.regex(r"[a-z_0-9$.]*"', "G13n")
+m("C08", "compiler.py", "old_addr_value = wait(old_addr)", "old_addr_value = old_addr", "G11")
+m("C08", "metacommands.py", "    return b\"\\x00\" * ((-wait(state[\"emit_address\"])) % count)", "    return b\"\\x00\" * ((-state[\"emit_address\"]) % count)", "G11")
